@@ -37,7 +37,7 @@ EXPL = {
 def main_for(prop, argv=None, level="other"):
     ck = Check(prop, argv, level=level)
     res = chanworld.run(ck)
-    pats = SELECT[prop]
+    pats = SELECT[prop] + (("frame:",) if prop == "C04" else ())
     world.report(ck, res, select=lambda n: any(p in n for p in pats))
     ck.trusted.extend(TRUST)
     ck.assumptions.append(NOT_DECIDED)
